@@ -17,6 +17,8 @@ struct Src {
     closed: bool,
     waker: Option<Waker>,
     seq: usize,
+    /// clones of the wakers this source was ever handed (a transport may keep and wake an old clone at any time)
+    old: Vec<Waker>,
 }
 struct World {
     script: Vec<Value>,
@@ -25,6 +27,11 @@ struct World {
     handle: Option<ProbeHandle<Scripted, String>>,
     drift: Vec<String>,
     out: Vec<Value>,
+    /// cooperative-yield mode: until the current queue poll returns, every stream answers Pending after waking
+    /// its own waker (what a runtime's exhausted task budget does when the task is polled outside a scheduler)
+    exhausted: bool,
+    polls_this_call: usize,
+    livelocked: bool,
 }
 type Wd = Arc<Mutex<World>>;
 struct Scripted {
@@ -81,6 +88,36 @@ fn other_thread_action(w: &Wd, e: &Value) {
                 wk.wake();
             }
         }
+        "StaleWake" => {
+            // the source wakes an old clone of a waker it was handed earlier (duplicate / spurious wake-up)
+            let wk = {
+                let g = w.lock().unwrap();
+                g.srcs.get(&k).and_then(|s| {
+                    let i = e.get("i").and_then(|v| v.as_u64()).unwrap_or(0) as usize;
+                    if s.old.is_empty() { None } else { Some(s.old[s.old.len() - 1 - (i % s.old.len())].clone()) }
+                })
+            };
+            if let Some(wk) = wk {
+                ev(w, json!({"ev":"fire","k":k,"stale":true}));
+                wk.wake_by_ref();
+            }
+        }
+        "StaleFire" => {
+            // model-following: the source wakes the clone of the waker it got at its abs-th poll
+            let abs = e.get("abs").and_then(|v| v.as_u64()).unwrap_or(1) as usize;
+            let wk = w.lock().unwrap().srcs.get(&k).and_then(|s| s.old.get(abs - 1).cloned());
+            match wk {
+                Some(wk) => {
+                    ev(w, json!({"ev":"fire","k":k,"stale":true}));
+                    wk.wake_by_ref();
+                }
+                None => w.lock().unwrap().drift.push(format!("StaleFire({}, poll {}) but the source has no such waker", k, abs)),
+            }
+        }
+        "Exhaust" => {
+            w.lock().unwrap().exhausted = true;
+            ev(w, json!({"ev":"exhaust"}));
+        }
         "Remove" => {
             let h = w.lock().unwrap().handle.clone().unwrap();
             ev(w, json!({"ev":"rm","k":k}));
@@ -90,7 +127,7 @@ fn other_thread_action(w: &Wd, e: &Value) {
     }
 }
 fn is_other(e: &Value) -> bool {
-    matches!(e["a"].as_str().unwrap_or(""), "Insert" | "Produce" | "Close" | "Fire" | "Remove" | "Wake")
+    matches!(e["a"].as_str().unwrap_or(""), "Insert" | "Produce" | "Close" | "Fire" | "Remove" | "Wake" | "StaleWake" | "StaleFire" | "Exhaust")
 }
 
 impl Stream for Scripted {
@@ -110,7 +147,7 @@ impl Stream for Scripted {
                     break;
                 };
                 let a = e["a"].as_str().unwrap_or("");
-                if a == "L3" || (a == "L1" && e["res"] == "l1") {
+                if (a == "L3" && e["res"] != "parked") || (a == "L1" && e["res"] == "l1") {
                     w.lock().unwrap().cur += 1;
                     continue;
                 }
@@ -140,9 +177,67 @@ impl Stream for Scripted {
             }
         }
         // 3. the stream's own answer
+        let yielding = {
+            let mut g = w.lock().unwrap();
+            g.polls_this_call += 1;
+            if g.exhausted && g.polls_this_call > 2000 {
+                // the queue keeps re-polling self-waking streams without ever returning to its caller
+                g.exhausted = false;
+                if !g.livelocked {
+                    g.livelocked = true;
+                    let n = g.polls_this_call;
+                    g.out.push(json!({"ev":"livelock","k":self.k,"polls":n}));
+                }
+            }
+            g.exhausted
+        };
+        if yielding {
+            if w.lock().unwrap().polls_this_call <= 30 {
+                ev(&w, json!({"ev":"spoll","k":self.k,"res":"pending","selfwake":true}));
+            }
+            {
+                let mut g = w.lock().unwrap();
+                let s = g.srcs.entry(self.k.clone()).or_default();
+                if s.old.len() < 4096 {
+                    s.old.push(cx.waker().clone());
+                }
+            }
+            cx.waker().wake_by_ref();
+            if modelled {
+                let mut g = w.lock().unwrap();
+                let e = g.script.get(g.cur).cloned();
+                match e {
+                    Some(e) if e["a"] == "PollStream" => {
+                        if e["res"] != "l3" || e["selfwake"] != true {
+                            g.drift.push(format!("PollStream model {} selfwake {} code yields", e["res"], e["selfwake"]));
+                        }
+                        g.cur += 1;
+                    }
+                    other => g.drift.push(format!("expected PollStream, model at {:?}", other)),
+                }
+                drop(g);
+                loop {
+                    let e = {
+                        let g = w.lock().unwrap();
+                        g.script.get(g.cur).cloned()
+                    };
+                    match e {
+                        Some(e) if is_other(&e) => {
+                            w.lock().unwrap().cur += 1;
+                            other_thread_action(&w, &e);
+                        }
+                        _ => break,
+                    }
+                }
+            }
+            return Poll::Pending;
+        }
         let res = {
             let mut g = w.lock().unwrap();
             let s = g.srcs.entry(self.k.clone()).or_default();
+            if s.old.len() < 4096 {
+                s.old.push(cx.waker().clone());
+            }
             if s.avail > 0 {
                 s.avail -= 1;
                 s.seq += 1;
@@ -246,7 +341,7 @@ pub fn replay(scripts: &[Value]) -> (Vec<Value>, FqStats) {
         st.behaviours += 1;
         st.steps += script.len();
         let mut probe: FairQueueProbe<Scripted, String> = FairQueueProbe::new(true);
-        let w: Wd = Arc::new(Mutex::new(World { script, cur: 0, srcs: HashMap::new(), handle: Some(probe.handle()), drift: vec![], out: vec![] }));
+        let w: Wd = Arc::new(Mutex::new(World { script, cur: 0, srcs: HashMap::new(), handle: Some(probe.handle()), drift: vec![], out: vec![], exhausted: false, polls_this_call: 0, livelocked: false }));
         ev(&w, json!({"ev":"reset","scen":st.behaviours}));
         // one counting waker per receiver future ("generation"): a cancelled recv's waker is dead, a wake
         // that only reaches a dead waker does not wake the current receiver
@@ -261,8 +356,12 @@ pub fn replay(scripts: &[Value]) -> (Vec<Value>, FqStats) {
             let mut cx = Context::from_waker(&waker);
             let woken = cur_count() > *wakes_at_ret;
             ev(w, json!({"ev":"poll","woken":woken,"parked":*parked}));
+            w.lock().unwrap().polls_this_call = 0;
+            let before = cur_count();
             let r = probe.poll_next(&mut cx);
-            *wakes_at_ret = cur_count();
+            w.lock().unwrap().exhausted = false; // the caller got control back: a new task poll starts with a fresh budget
+            // executor semantics: a wake-up delivered to this future's waker while it was being polled counts
+            *wakes_at_ret = before;
             if r.is_ready() {
                 // the call returned: the next call is a new future, polled with a new waker
                 wakers.borrow_mut().push(CountWaker::new());
@@ -327,9 +426,18 @@ pub fn replay(scripts: &[Value]) -> (Vec<Value>, FqStats) {
                         };
                         let Some(e) = e else { break };
                         let a = e["a"].as_str().unwrap_or("");
-                        if a == "L3" || (a == "L1" && e["res"] == "l1") {
+                        if (a == "L3" && e["res"] != "parked") || (a == "L1" && e["res"] == "l1") {
                             w.lock().unwrap().cur += 1;
                             continue;
+                        }
+                        if a == "L3" {
+                            // every stream had its turn: the call gives control back (and has woken itself if events remain)
+                            if !r.is_pending() {
+                                w.lock().unwrap().drift.push("model yields but code returned Ready".into());
+                            }
+                            expect = Some(e["snap"].clone());
+                            w.lock().unwrap().cur += 1;
+                            break;
                         }
                         if a == "L2" {
                             if !matches!(r, Poll::Ready(Some(_))) {
@@ -409,6 +517,7 @@ pub fn replay(scripts: &[Value]) -> (Vec<Value>, FqStats) {
         }
         trace.append(&mut g.out);
         g.handle = None; // break the Arc cycle
+        g.srcs.clear();
     }
     (trace, st)
 }
